@@ -5,6 +5,8 @@ from vlib.env import part
 from vlib.known import allowed, pick as pick_dev
 from vlib.sim import new_loop, SimTransport, generic_dev, pick, conc, concb, fkind
 
+from rsocket.error_codes import ErrorCode
+from rsocket.exceptions import RSocketProtocolError
 from rsocket.frame import (PayloadFrame, ErrorFrame, CancelFrame, RequestNFrame, is_fragmentable_frame)
 from rsocket.frame_builders import to_cancel_frame, to_request_n_frame
 from rsocket.frame_fragment_cache import FrameFragmentCache
@@ -18,8 +20,9 @@ V1 = part('v1', None)
 THIRD = part('third', 0)                 # 0 none, 1 a 2-fragment payload on stream 3, 2 an unfragmented COMPLETE on stream 1
 MOMENTS = part('moments', 3)
 LENHDR = part('lenhdr', False)
-# variants: 0-4 payload of LENS[i]; 5-9 payload+complete of LENS[i]; 10 complete; 11 error; 12 cancel; 13 request-n
-NV = 14
+# variants: 0-4 payload of LENS[i]; 5-9 payload+complete of LENS[i]; 10 complete; 11 error (application exception);
+# 12 cancel; 13 request-n; 14 error (a protocol error: REJECTED) - both through send_error
+NV = 15
 
 
 def _queue(s, sid, variant, tag):
@@ -41,6 +44,9 @@ def _queue(s, sid, variant, tag):
     if variant == 12:
         s.send_frame(to_cancel_frame(sid))
         return ('X', b'')
+    if variant == 14:
+        s.send_error(sid, RSocketProtocolError(ErrorCode.REJECTED, data='r%d' % tag))
+        return ('E', b'r%d' % tag)
     s.send_frame(to_request_n_frame(sid, 7 + tag))
     return ('N', bytes([7 + tag]))
 
@@ -62,8 +68,8 @@ def _desc(f):
 
 def c_wire_order(s1: bool, v1: int, m1: int, s2: bool, v2: int, m2: int, m3: int) -> str:
     """
-    Two free sources (stream 1 or 3; payload / payload+complete of 0..4 fragments, complete, error, cancel,
-    request-n) plus an optional third, each queued through the socket API before the sender starts or after the
+    Two free sources (stream 1 or 3; payload / payload+complete of 0..4 fragments, complete, error (application or protocol
+    error through send_error), cancel, request-n) plus an optional third, each queued through the socket API before the sender starts or after the
     j-th frame has been handed to a transport whose send blocks until released.  Emitted sequence: per stream in
     queue order, fragments of a frame contiguous within their stream, receiver-side reassembly gives back each
     original payload.
